@@ -28,6 +28,7 @@ type repeatCase struct {
 	NegMask int
 	Trim    bool
 	Twin    bool // list: two functions of one name and file with different start lines, sampled far apart
+	TreeTie bool // call trees: identical subtrees under two roots whose totals cancel
 }
 
 var tieOpts = gen.Opts{Alpha: gen.Plain, MaxSamples: 8, MaxDepth: 5, MaxLines: 3, MinTypes: 1, MaxTypes: 2, SmallVals: true, AnyIDs: true, NoHugeIDs: true,
@@ -37,7 +38,11 @@ var formats = []string{"top", "tree", "peek", "dot", "callgrind", "tags", "trace
 
 func genRepeat(t *rapid.T) *repeatCase {
 	p := rep.GenProfile(t, tieOpts)
-	c := &repeatCase{P: p, C: rep.GenConf(t, p, formats), NegMask: rapid.IntRange(0, 255).Draw(t, "negmask"), Trim: rapid.Bool().Draw(t, "trim"), Twin: rapid.Bool().Draw(t, "twin")}
+	c := &repeatCase{P: p, C: rep.GenConf(t, p, formats), NegMask: rapid.IntRange(0, 255).Draw(t, "negmask"), Trim: rapid.Bool().Draw(t, "trim"), Twin: rapid.Bool().Draw(t, "twin"), TreeTie: rapid.IntRange(0, 3).Draw(t, "treetie") == 0}
+	if c.TreeTie {
+		c.C.CallTree = true
+		c.C.Format = rapid.SampledFrom([]string{"dot", "dot", "callgrind"}).Draw(t, "treefmt")
+	}
 	return c
 }
 
@@ -75,6 +80,51 @@ func tieProfile(c *repeatCase) *profile.Profile {
 				}
 			}
 		}
+	}
+	if c.TreeTie {
+		// two extra root frames; under each of them the same two stacks with opposite values, so that the
+		// roots total zero (they are left out of the graph) and their subtrees are indistinguishable
+		var maxF, maxL uint64
+		for _, f := range p.Function {
+			if f.ID > maxF {
+				maxF = f.ID
+			}
+		}
+		for _, l := range p.Location {
+			if l.ID > maxL {
+				maxL = l.ID
+			}
+		}
+		var roots []*profile.Location
+		for i, name := range []string{"rootA", "rootB"} {
+			f := &profile.Function{ID: maxF + 1 + uint64(i), Name: name, SystemName: name, Filename: "r.go"}
+			l := &profile.Location{ID: maxL + 1 + uint64(i), Address: 0x900000 + uint64(i)*16, Line: []profile.Line{{Function: f, Line: 1}}}
+			p.Function = append(p.Function, f)
+			p.Location = append(p.Location, l)
+			roots = append(roots, l)
+		}
+		var extra []*profile.Sample
+		n := 0
+		for _, s := range p.Sample {
+			if len(s.Location) < 2 || n >= 2 {
+				continue
+			}
+			n++
+			rev := make([]*profile.Location, len(s.Location))
+			for j := range s.Location {
+				rev[j] = s.Location[len(s.Location)-1-j]
+			}
+			neg := make([]int64, len(s.Value))
+			for j, v := range s.Value {
+				neg[j] = -v
+			}
+			for _, r := range roots {
+				extra = append(extra,
+					&profile.Sample{Location: append(append([]*profile.Location{}, s.Location...), r), Value: append([]int64{}, s.Value...)},
+					&profile.Sample{Location: append(append([]*profile.Location{}, rev...), r), Value: neg})
+			}
+		}
+		p.Sample = append(p.Sample, extra...)
 	}
 	// conflicting units for the numeric tags of several keys (warnings must come in a fixed order too)
 	if c.NegMask&1 != 0 {
@@ -148,6 +198,9 @@ func checkRepeat(c *repeatCase, o *vk.Obs) []string {
 		}
 		if out != first {
 			e.Addf("-%s (granularity %s, call_tree=%v, trim=%v) differs between run 0 and run %d of the same command on the same profile:\n%s", c.C.Format, c.C.Gran, c.C.CallTree, c.Trim, k, firstDiff(first, out))
+			if os.Getenv("VERIF_DUMP") != "" {
+				fmt.Fprintf(os.Stderr, "==== run 0\n%s\n==== run %d\n%s\n", first, k, out)
+			}
 			break
 		}
 	}
